@@ -148,6 +148,7 @@ func (fr *frame) execBlock(b *ssa.BasicBlock, st *bstate) {
 				continue
 			}
 			fr.checkGuardedAccess(x.Addr, st, true, x.Pos())
+			fr.checkFieldStore(x.Addr, st, x.Pos())
 			if g, ok := x.Addr.(*ssa.Global); ok && !f.e.mutableGlobals[g] {
 				continue // init-time store
 			}
@@ -329,6 +330,7 @@ func (fr *frame) indexAddr(x *ssa.IndexAddr, st *bstate) {
 		fr.vals[x] = f.freshVal("ia", x.Type())
 		return
 	}
+	f.indexTerms = append(f.indexTerms, idx)
 	if f.sweep["index"] {
 		f.oblige(st, fmt.Sprintf("%s#index-in-range:%s", fnShortName(fr.fn), valueLabel(x.X)), "safety", f.sweepTags,
 			and(app("<=", "0", idx), app("<", idx, ln)), "index in range", posStr(f.e.fset, x.Pos()))
@@ -503,8 +505,29 @@ func (fr *frame) rangeInit(x *ssa.Range, st *bstate) {
 	// iterator: remember the ranged value; visited-set ghost for maps
 	it := f.c.freshConst("iter", sortInt)
 	fr.vals[x] = Val{K: KRef, T: x.Type(), Tm: it}
-	if _, ok := x.X.Type().Underlying().(*types.Map); ok {
+	if mt, ok := x.X.Type().Underlying().(*types.Map); ok {
 		fr.checkGuardedValue(x.X, st, false, x.Pos())
+		// ghost: number of keys yielded so far, and the total at the time the iteration starts
+		f.rangeN++
+		key := fmt.Sprintf("G.range.%d.%d.n", fr.id, f.rangeN)
+		f.hs.regKey(key, sortInt)
+		f.hs.final[key] = true
+		if fr.top {
+			f.rangeKeys[f.rangeN] = key
+		}
+		st.heap = f.hs.write(st.heap, key, "0")
+		total := "0"
+		if _, dk, _ := f.mapKeys(mt); dk != "" {
+			m := fr.val(x.X)
+			total = f.c.define("range.total", sortInt, ite(eq(m.Tm, "0"), "0", app(f.mapLenFn(mt), app("select", f.hs.read(st.heap, dk), m.Tm))))
+			f.assume(st, app(">=", total, "0"), "len(map) >= 0")
+		} else {
+			total = f.c.freshConst("range.total", sortInt)
+		}
+		if fr.rangeInfo == nil {
+			fr.rangeInfo = map[*ssa.Range][2]string{}
+		}
+		fr.rangeInfo[x] = [2]string{key, total}
 	}
 	f.exact["Range"]++
 }
@@ -514,8 +537,14 @@ func (fr *frame) next(x *ssa.Next, st *bstate) {
 	rg, _ := x.Iter.(*ssa.Range)
 	tup := x.Type().(*types.Tuple)
 	ok := f.c.freshConst("next.ok", sortBool)
-	kv := f.freshVal("next.k", tup.At(1).Type())
-	vv := f.freshVal("next.v", tup.At(2).Type())
+	kt, vt := tup.At(1).Type(), tup.At(2).Type()
+	if rg != nil && !x.IsString {
+		if mt, isMap := rg.X.Type().Underlying().(*types.Map); isMap {
+			kt, vt = mt.Key(), mt.Elem() // unused components have an invalid type in the tuple
+		}
+	}
+	kv := f.freshVal("next.k", kt)
+	vv := f.freshVal("next.v", vt)
 	f.assumeTypeRange(st, kv)
 	f.assumeTypeRange(st, vv)
 	if rg != nil && !x.IsString {
@@ -533,6 +562,13 @@ func (fr *frame) next(x *ssa.Next, st *bstate) {
 			if dk != "" {
 				f.assume(st, implies(eq(m.Tm, "0"), not(ok)), "range over nil map")
 			}
+		}
+	}
+	if rg != nil && fr.rangeInfo != nil {
+		if info, has := fr.rangeInfo[rg]; has {
+			n := f.hs.read(st.heap, info[0])
+			f.assume(st, and(app("<=", "0", n), app("<=", n, info[1]), implies(ok, app("<", n, info[1])), implies(not(ok), eq(n, info[1]))), "map iteration yields each key once")
+			st.heap = f.hs.write(st.heap, info[0], f.c.define("range.n", sortInt, ite(ok, app("+", n, "1"), n)))
 		}
 	}
 	fr.vals[x] = Val{K: KTuple, T: x.Type(), Fs: []Val{boolVal(ok), kv, vv}}
